@@ -275,7 +275,7 @@ func checkC20(w *World) {
 			w.check(P, "R20.6", "xml.Name built in "+fn.Name(), base.Pos(), got["Space"] == "Space" && got["Local"] == "Local", fmt.Sprintf("Space <- %s, Local <- %s (must be the node's Space() and Local() on every path)", got["Space"], got["Local"]))
 		}
 	}
-	w.floor(P, "R20.6", 3)
+	w.floor(P, "R20.6", 2) // the option parser and at least one xml.Name construction (shared helpers reduce the count)
 
 	// R20.2 file types
 	valid := map[string]bool{}
@@ -313,19 +313,80 @@ func checkC20(w *World) {
 			}
 		}
 	}
+	// the types the MIME detection can choose: the string constants that flow into the factory's type parameter at its
+	// call sites (through variables, and through the results of functions of the command)
 	detected := map[string]bool{}
-	for _, fn := range all {
-		allInstrs(fn, func(in ssa.Instruction) {
-			phi, ok := in.(*ssa.Phi)
-			if !ok || !isStringType(phi.Type()) || phi.Comment != "parseType" {
+	if factory != nil {
+		seenV := map[ssa.Value]bool{}
+		var flow func(v ssa.Value, depth int)
+		flow = func(v ssa.Value, depth int) {
+			if v == nil || seenV[v] || depth > 12 {
 				return
 			}
-			for _, e := range phi.Edges {
-				if s, ok := constString(e); ok {
+			seenV[v] = true
+			if s, ok := constString(v); ok {
+				if s != "" { // "" = not determined yet
 					detected[s] = true
 				}
+				return
 			}
-		})
+			switch x := v.(type) {
+			case *ssa.Phi:
+				for _, e := range x.Edges {
+					flow(e, depth+1)
+				}
+			case *ssa.Extract:
+				if c, ok := x.Tuple.(*ssa.Call); ok {
+					if g := staticCallee(c); g != nil && fnPkgKey(g) == "xsel" {
+						allInstrs(g, func(in ssa.Instruction) {
+							if r, ok := in.(*ssa.Return); ok && x.Index < len(r.Results) {
+								flow(r.Results[x.Index], depth+1)
+							}
+						})
+					}
+				}
+			case *ssa.Call:
+				if g := staticCallee(x); g != nil && fnPkgKey(g) == "xsel" {
+					allInstrs(g, func(in ssa.Instruction) {
+						if r, ok := in.(*ssa.Return); ok && len(r.Results) > 0 {
+							flow(r.Results[0], depth+1)
+						}
+					})
+				}
+			case *ssa.Parameter:
+				// a parameter of a function of the command: what its callers pass
+				fn := x.Parent()
+				for i, p := range fn.Params {
+					if p != x {
+						continue
+					}
+					for _, caller := range all {
+						allInstrs(caller, func(in ssa.Instruction) {
+							if c, ok := in.(ssa.CallInstruction); ok && c.Common().StaticCallee() == fn && i < len(c.Common().Args) {
+								flow(c.Common().Args[i], depth+1)
+							}
+						})
+					}
+				}
+			case *ssa.UnOp:
+				if al, ok := x.X.(*ssa.Alloc); ok {
+					for _, st := range storesInto(al) {
+						flow(st.Val, depth+1)
+					}
+				}
+			case *ssa.ChangeType:
+				flow(x.X, depth+1)
+			case *ssa.Convert:
+				flow(x.X, depth+1)
+			}
+		}
+		for _, caller := range all {
+			allInstrs(caller, func(in ssa.Instruction) {
+				if c, ok := in.(ssa.CallInstruction); ok && c.Common().StaticCallee() == factory && len(c.Common().Args) > 1 {
+					flow(c.Common().Args[1], 0)
+				}
+			})
+		}
 	}
 	wantReaders := map[string]string{"xml": "ReadXml", "html": "ReadHtml", "json": "ReadJson"}
 	for t, rd := range wantReaders {
@@ -442,57 +503,74 @@ func checkC20(w *World) {
 	if execFn == nil {
 		w.undecided(P, "R20.3", "per-file execution", 0, "no call of xsel.Exec in the command")
 	} else {
-		early := false
-		allInstrs(execFn, func(in ssa.Instruction) {
-			ret, ok := in.(*ssa.Return)
-			if !ok {
-				return
+		// the per-file function and the functions of the command it was split into
+		var cands []*ssa.Function
+		for g := range staticReach(execFn, func(x *ssa.Function) bool { return fnPkgKey(x) == "xsel" }) {
+			if fnPkgKey(g) == "xsel" {
+				cands = append(cands, g)
 			}
-			for _, a := range guardAtoms(ret.Block()) {
-				if bo, ok := a.V.(*ssa.BinOp); ok && isLenOf(bo.X, nil) {
-					if k, isK := constInt(bo.Y); isK && k == 0 && bo.Op == token.EQL && a.Pol {
-						// no output call dominates this return
-						early = true
-						for _, b := range execFn.Blocks {
-							if b.Dominates(ret.Block()) {
-								for _, in2 := range b.Instrs {
-									if c, ok := in2.(*ssa.Call); ok && staticCallee(c) != nil && strings.HasPrefix(funcFullName(staticCallee(c)), "fmt.Print") {
-										early = false
+		}
+		sort.Slice(cands, func(i, j int) bool { return cands[i].String() < cands[j].String() })
+		early := false
+		for _, g := range cands {
+			allInstrs(g, func(in ssa.Instruction) {
+				ret, ok := in.(*ssa.Return)
+				if !ok {
+					return
+				}
+				for _, a := range guardAtoms(ret.Block()) {
+					if bo, ok := a.V.(*ssa.BinOp); ok && isLenOf(bo.X, nil) {
+						if k, isK := constInt(bo.Y); isK && k == 0 && bo.Op == token.EQL && a.Pol {
+							// no output call dominates this return
+							quiet := true
+							for _, b := range g.Blocks {
+								if b.Dominates(ret.Block()) {
+									for _, in2 := range b.Instrs {
+										if c, ok := in2.(*ssa.Call); ok && staticCallee(c) != nil && strings.HasPrefix(funcFullName(staticCallee(c)), "fmt.Print") {
+											quiet = false
+										}
 									}
 								}
+							}
+							if quiet {
+								early = true
 							}
 						}
 					}
 				}
-			}
-		})
+			})
+		}
 		w.check(P, "R20.3", "empty node-set prints nothing", execFn.Pos(), early, fmt.Sprintf("returns before any output when the node-set is empty: %v", early))
-		loops := loopBlocks(execFn)
 		perNode := false
-		allInstrs(execFn, func(in ssa.Instruction) {
-			c, ok := in.(*ssa.Call)
-			if !ok || !loops[c.Block()] || staticCallee(c) == nil {
-				return
-			}
-			for _, wi := range writers {
-				if staticCallee(c) == wi.fn {
-					// guarded by the -a flag, argument is a one-node set of the loop element
-					flagOK := false
-					for _, a := range guardAtoms(c.Block()) {
-						if mainGlobalLoad(a.V) == "printAllNodes" && a.Pol {
-							flagOK = true
+		for _, g := range cands {
+			loops := loopBlocks(g)
+			allInstrs(g, func(in ssa.Instruction) {
+				c, ok := in.(*ssa.Call)
+				if !ok || !loops[c.Block()] || staticCallee(c) == nil {
+					return
+				}
+				for _, wi := range writers {
+					if staticCallee(c) == wi.fn {
+						// guarded by the -a flag, argument is a one-node set of the loop element
+						flagOK := false
+						for _, a := range guardAtoms(c.Block()) {
+							if n := mainGlobalLoad(a.V); n != "" && n == flagLetter["a"] && a.Pol {
+								flagOK = true
+							}
+						}
+						asc := false
+						allInstrs(g, func(in2 ssa.Instruction) {
+							if ia, ok := in2.(*ssa.IndexAddr); ok && loops[ia.Block()] && ascendingCounter(ia.Index) {
+								asc = true
+							}
+						})
+						if flagOK && asc {
+							perNode = true
 						}
 					}
-					asc := false
-					allInstrs(execFn, func(in2 ssa.Instruction) {
-						if ia, ok := in2.(*ssa.IndexAddr); ok && loops[ia.Block()] && ascendingCounter(ia.Index) {
-							asc = true
-						}
-					})
-					perNode = flagOK && asc
 				}
-			}
-		})
+			})
+		}
 		w.check(P, "R20.3", "-a writes one record per node in order", execFn.Pos(), perNode, fmt.Sprintf("%v", perNode))
 	}
 	w.floor(P, "R20.3", 6)
